@@ -403,7 +403,7 @@ impl StoryState {
 
         if has_patch {
             let curr_count = self.visit_count_for_container(container);
-            let new_count = curr_count + 1;
+            let new_count = curr_count.wrapping_add(1);
             self.patch
                 .as_mut()
                 .unwrap()
@@ -416,7 +416,7 @@ impl StoryState {
                 count = existing_count;
             }
 
-            count += 1;
+            count = count.wrapping_add(1);
             self.visit_counts.insert(container_path_str, count);
         }
     }
@@ -906,11 +906,19 @@ impl StoryState {
     pub fn pop_evaluation_stack_multiple(
         &mut self,
         number_of_objects: usize,
-    ) -> Vec<Rc<dyn RTObject>> {
-        let start = self.evaluation_stack.len() - number_of_objects;
+    ) -> Result<Vec<Rc<dyn RTObject>>, StoryError> {
+        let start = self
+            .evaluation_stack
+            .len()
+            .checked_sub(number_of_objects)
+            .ok_or_else(|| {
+                StoryError::InvalidStoryState(
+                    "Evaluation stack does not hold enough values for the operation.".to_owned(),
+                )
+            })?;
         let obj: Vec<Rc<dyn RTObject>> = self.evaluation_stack.drain(start..).collect();
 
-        obj
+        Ok(obj)
     }
 
     pub fn set_diverted_pointer(&mut self, p: Pointer) {
@@ -933,7 +941,7 @@ impl StoryState {
         self.set_current_pointer(new_pointer);
 
         if incrementing_turn_index {
-            self.current_turn_index += 1;
+            self.current_turn_index = self.current_turn_index.wrapping_add(1);
         }
 
         Ok(())
@@ -1129,7 +1137,7 @@ impl StoryState {
         if !container.turn_index_should_be_counted {
             return Err(StoryError::InvalidStoryState(format!(
                 "TURNS_SINCE() for target ({}) unknown.",
-                container.name.as_ref().unwrap()
+                container.name.as_deref().unwrap_or_default()
             )));
         }
 
